@@ -322,7 +322,7 @@ def wfIn (i : Input) : Bool :=
   -- (or on the diagonal of its last column): the graph is acyclic
   allBelow i.jcol (fun s => repOf e s ≠ s ||
     (0 ≤ rd i.xlsub s && rd i.xlsub s ≤ rd i.xprune s && rd i.xprune s ≤ nextl0 &&
-     (adjRows e i.lsub s).all fun row => 0 ≤ row && row < i.m && (rd i.perm_r row = EMPTY || (s : Int) ≤ rd i.perm_r row))) &&
+     (adjRows e i.lsub s).all fun row => 0 ≤ row && row < i.m && (rd i.perm_r row = EMPTY || (s : Int) ≤ rd i.perm_r row || repOf e (rd i.perm_r row) = s))) &&
   -- the column's own rows
   (colRows i.lsubCol).all (fun row => 0 ≤ row && row < i.m)
 
